@@ -523,7 +523,11 @@ def _nm(c):
     if c and c[0] == 'call' and isinstance(c[1], str) and re.search(r'::(min|max)$', c[1]) and len(c[2]) == 2:
         return ('call', c[1].rsplit('::', 1)[-1], tuple(sorted((_nm(c[2][0]), _nm(c[2][1])), key=repr)))
     if c and c[0] == 'call' and isinstance(c[1], str) and c[1].endswith('next_power_of_two'):
-        return ('call', 'next_power_of_two', tuple(_nm(x) for x in c[2]))
+        inner = tuple(_nm(x) for x in c[2])
+        if len(inner) == 1 and isinstance(inner[0], tuple) and inner[0][:1] == ('call',) and inner[0][1] in ('min', 'max'):
+            # next_power_of_two is monotonic: it commutes with min / max
+            return ('call', inner[0][1], tuple(sorted((('call', 'next_power_of_two', (x,)) for x in inner[0][2]), key=repr)))
+        return ('call', 'next_power_of_two', inner)
     if c and c[0] == 'call':
         return ('call', c[1], tuple(_nm(x) for x in c[2]))
     if c and c[0] == 'ref':
@@ -561,6 +565,28 @@ def _atom(op, a, b, pol):
     return ('le0', n)
 
 
+def _split_minmax(op, a, b, pol):
+    """an upper bound on max(x, y) bounds both, a lower bound on min(x, y) bounds both (unsigned: `min != 0`, `max == 0` too):
+    the comparison is the conjunction of the same comparison on x and on y; None if the comparison has another shape"""
+    if not pol:
+        op = {'Lt': 'Ge', 'Le': 'Gt', 'Gt': 'Le', 'Ge': 'Lt', 'Eq': 'Ne', 'Ne': 'Eq'}[op]
+    a, b = _nm(a), _nm(b)
+
+    def mm(v):
+        return v[1] if isinstance(v, tuple) and v[:1] == ('call',) and v[1] in ('min', 'max') and len(v[2]) == 2 else None
+    if mm(b) and not mm(a):
+        a, b = b, a
+        op = {'Lt': 'Gt', 'Le': 'Ge', 'Gt': 'Lt', 'Ge': 'Le', 'Eq': 'Eq', 'Ne': 'Ne'}[op]
+    k = mm(a)
+    if not k or mm(b):
+        return None
+    both = (k == 'max' and op in ('Lt', 'Le')) or (k == 'min' and op in ('Gt', 'Ge')) \
+        or (k == 'min' and op == 'Ne' and b == ('const', 0)) or (k == 'max' and op == 'Eq' and b == ('const', 0))
+    if not both:
+        return None
+    return {_atom(op, a[2][0], b, True), _atom(op, a[2][1], b, True)}
+
+
 def accept_atoms(c, pol=True):
     """atoms of a condition that is a pure conjunction once negations are pushed inward; None if it is not"""
     if not isinstance(c, tuple) or not c:
@@ -573,6 +599,9 @@ def accept_atoms(c, pol=True):
     if c[0] == 'un' and c[1] == 'Not':
         return accept_atoms(c[2], not pol)
     if c[0] == 'bin' and c[1] in ('Lt', 'Le', 'Gt', 'Ge', 'Eq', 'Ne'):
+        sp = _split_minmax(c[1], c[2], c[3], pol)
+        if sp is not None:
+            return sp
         return {_atom(c[1], c[2], c[3], pol)}
     if c[0] == 'call' and isinstance(c[1], str) and c[1].endswith('::contains') and len(c[2]) == 2 and pol:
         r = c[2][0]
